@@ -123,12 +123,17 @@ def rolloff_of(info):
 
 
 def gain_class_db(info):
-    """Roll-off class as a bound on |gain error| in dB over the pass-band.  `none` has no figure in soxr.h; it is read
-    as "flat to within the configured precision"."""
+    """Roll-off class as a bound on |gain error| in dB over the pass-band (soxr.h: small <= 0.01 dB, medium <= 0.35 dB).
+    `none` carries no figure in soxr.h or in the property; the classes are ordered, so it is bounded by the next one
+    (0.01 dB).  The stricter reading "flat to within 2^(1-bits)" is measured and recorded (evidence: none_flatness) but
+    is not a verdict: the property text does not promise it and the phase transform of non-linear phase settings
+    preserves the magnitude only to about 1e-4 (DESIGN, C14)."""
     r = rolloff_of(info)
-    if r == 2:
-        return 20 * math.log10(1 + 2.0 ** (1 - bits_of(info)))
-    return ROLL_DB[r]
+    return 0.01 if r == 2 else ROLL_DB[r]
+
+
+def none_flat_db(bits):
+    return 20 * math.log10(1 + 2.0 ** (1 - bits))
 
 
 # ------------------------------------------------------------------ the plan and its implementation period
@@ -236,8 +241,8 @@ def measure_rows(c, max_phases=2000):
         x[npos] = 1.0
         inf, y = run(c, x)
         # gather: sample (p, k) is the coefficient of row r = k mod L_P at input offset m = n_p - u*M_P, k = r + u*L_P
-        Tlo = int(math.ceil(Whi * M / L)) + 2          # taps before the row's own instant come from LATER outputs
-        Thi = int(math.ceil(Wlo * M / L)) + 2
+        Tlo = int(math.ceil((Whi + 1) * M / L)) + 2    # taps before the row's own instant come from LATER outputs
+        Thi = int(math.ceil((Wlo + 1) * M / L)) + 2    # (+1: the window centre kc is floor(n_p*L/M))
         W = Tlo + Thi + 1
         A = np.zeros((LP, W))
         used = np.zeros(len(y), dtype=bool)
@@ -415,7 +420,7 @@ def tone_job(c, f_in, amp=0.95, phase0=0.3, nfit=12000, kind="pass", ch=1, chan=
     if b - a < 200:
         return {"skipped": "stream too short"}
     out = dict(engine=info["engine"], bits=bits_of(info), plan=plan_signature(info), f_in=f_in, n_in=N, n_fit=b - a, horizon=H,
-               rolloff=rolloff_of(info), phase=info["q"]["phase"])
+               rolloff=rolloff_of(info), phase=info["q"]["phase"], kinds="+".join(s["kind"] for s in info["stages"]) or "none")
     if kind == "stop":
         out["level"] = float(np.abs(y[a:b]).max() / amp)
         return out
@@ -441,3 +446,156 @@ def tone_job(c, f_in, amp=0.95, phase0=0.3, nfit=12000, kind="pass", ch=1, chan=
 
 def dB(x):
     return 20 * math.log10(max(x, 1e-300))
+
+
+# ------------------------------------------------------------------ configuration pools (one ratio class per planner path)
+
+# rational ratios (input rate, output rate) by the planner path they exercise
+RATIOS_SMALL_INT = [(2, 1), (1, 2), (3, 1), (1, 3), (4, 1), (1, 4), (3, 2), (2, 3), (4, 3), (3, 4), (5, 1), (1, 5)]   # DFT-only, incl. F-domain powers of two
+RATIOS_HALF = [(8, 1), (16, 1), (32, 1), (64, 1), (6, 1), (9, 1), (10, 1), (12, 1), (24, 1), (5, 2), (48000, 8000)]   # half-band chains (+ final stage)
+RATIOS_POST = [(1, 6), (1, 8), (1, 10), (1, 12), (1, 16), (1, 32), (8000, 48000), (11025, 96000), (44100, 192000), (8000, 44100)]  # large up-sampling: post stages
+RATIOS_ARB = [(44100, 48000), (48000, 44100), (96000, 44100), (44100, 96000), (32000, 44100), (48000, 32000), (22050, 48000),
+              (88200, 48000), (16000, 44100), (7, 3), (3, 7), (2, 5), (192000, 44100), (44100, 8000)]                  # rational poly-phase stage
+RATIOS_RATIONAL = RATIOS_SMALL_INT + RATIOS_HALF + RATIOS_POST + RATIOS_ARB
+# irrational / near-rational ratios: interpolated coefficients (orders 1-3), rounded clock
+RATIOS_IRRATIONAL = [(3.14159, 1), (1, 3.14159), (2.71828, 1), (1, 2.71828), (1.41421356, 1), (1, 1.41421356), (1.0001, 1), (1, 1.0001),
+                     (65537, 44100), (44100, 65537), (48000, 44101), (10.3, 1), (1, 20.7), (37.1, 1)]
+# (recipe, quality flags): LQ MQ 16 20(HQ) 24 28(VHQ) 32, LSR presets, steep filter, roll-off classes
+RECIPES = [(1, 0), (2, 0), (3, 0), (4, 0), (5, 0), (6, 0), (7, 0), (8, 0), (9, 0), (10, 0), (4 | 0x40, 0), (6 | 0x40, 0), (3 | 0x40, 0),
+           (4, 1), (4, 2), (6, 1), (6, 2), (3, 2), (7, 2), (5, 1)]
+PHASES_NONLINEAR = [0x10, 0x30]        # intermediate, minimum phase (recipe bits)
+
+# the fixed core of the quick tier: the tightest margins of the pinned tree and one configuration per planner path
+QUICK_CORE = [
+    mkcfg(48000, 44100, 4 | 0x40, 0, simd=0),     # cr32   dft2/1 + poly0 147/320        (steep; tightest stop band)
+    mkcfg(44100, 192000, 4, 0, simd=0),           # cr32   dft2/1 + poly0 80/147 + dft4/1 (pre + arb + post stage)
+    mkcfg(8, 1, 6, 0, simd=1),                    # cr64s  half + half + F-domain dft 1/2
+    mkcfg(1, 2, 2, 0, simd=1),                    # cr32s  F-domain dft 2/1, MQ: medium roll-off
+    mkcfg(5, 1, 5, 0, simd=0),                    # cr64   half + dft + poly0 2/5: implementation period (2,10)
+    mkcfg(3, 2, 4 | 0x40, 0, simd=1),             # cr32s  time-domain dft 2/3 (small integers)
+]
+
+
+def f1_signature(info):
+    """Known finding F1 (DESIGN section 6): non-linear phase + power-of-two-L DFT up-sampling stage with L >= 8."""
+    if abs(info["q"]["phase"] - 50) < 1e-9:
+        return False
+    return any(s["kind"] == "dft" and s["L"] >= 8 and (s["L"] & (s["L"] - 1)) == 0 for s in info["stages"])
+
+
+def pick_rational(rng, n, exclude=()):
+    """n random rational configurations (ratio class x recipe x flags x engine x occasionally a non-linear phase or an
+    explicit quality spec), all choices from the check's seeded generator."""
+    out = []
+    seen = set(cfg_label(c) for c in exclude)
+    guard = 0
+    while len(out) < n and guard < 50 * n + 100:
+        guard += 1
+        pool = rng.choice([RATIOS_SMALL_INT, RATIOS_HALF, RATIOS_POST, RATIOS_ARB])
+        ir, orr = rng.choice(pool)
+        rec, qf = rng.choice(RECIPES)
+        c = mkcfg(ir, orr, rec, qf, simd=rng.below(2))
+        u = rng.below(10)
+        if u == 0:
+            c["recipe"] = rec | rng.choice(PHASES_NONLINEAR)
+        elif u == 1 and (rec & 0xf) in (3, 4, 5, 6, 7):
+            # explicit quality spec: fractional precision, moved band edges (kept inside _soxr_init's accepted ranges)
+            c["prec"] = round(rng.uniform(15.0, 32.0), 2)
+            c["pb"] = round(rng.uniform(0.80, 0.95), 4)
+            if ir > orr and rng.below(2):
+                c["sb"] = round(rng.uniform(1.0, 1.08), 4)
+        elif u == 2:
+            c["qflags"] = qf | 16                  # SOXR_DOUBLE_PRECISION: cr64 engines at low precision
+        lab = cfg_label(c)
+        if lab in seen:
+            continue
+        seen.add(lab)
+        out.append(c)
+    return out
+
+
+def all_rational(engines=(0, 1)):
+    return [mkcfg(ir, orr, rec, qf, simd=s) for (ir, orr) in RATIOS_RATIONAL for (rec, qf) in RECIPES for s in engines]
+
+
+def pick_any(rng, n):
+    """n random configurations for the sine-fit exploration: any ratio (irrational ones weighted up), any recipe, flags
+    (hi-prec clock, coefficient interpolation orders forced), engine."""
+    out = []
+    for _ in range(n):
+        if rng.below(5) < 3:
+            ir, orr = rng.choice(RATIOS_IRRATIONAL)
+        else:
+            ir, orr = rng.choice(RATIOS_RATIONAL)
+        rec, qf = rng.choice(RECIPES)
+        c = mkcfg(ir, orr, rec, qf, simd=rng.below(2))
+        u = rng.below(8)
+        if u == 0:
+            c["qflags"] = qf | 8                    # SOXR_HI_PREC_CLOCK
+        elif u == 1:
+            c["rtflags"] = rng.choice([2, 3])       # SOXR_COEF_INTERP_LOW / HIGH: interpolated coefficients forced
+        elif u == 2:
+            c["qflags"] = qf | 16
+        elif u == 3:
+            c["recipe"] = rec | rng.choice(PHASES_NONLINEAR)
+        out.append(c)
+    return out
+
+
+# ------------------------------------------------------------------ pool jobs (top level: picklable)
+
+def job_rows(args):
+    c, max_phases = args
+    try:
+        R = measure_rows(c, max_phases)
+        if isinstance(R, dict):
+            d = {"cfg": c, "label": cfg_label(c), "skipped": R["skipped"]}
+            if "info" in R:
+                d["plan"] = plan_signature(R["info"])
+                d["designed_ok"] = designed_ok(R["info"])
+            return d
+        if f1_signature(R.info):
+            return {"cfg": c, "label": cfg_label(c), "skipped": "known finding F1 signature (non-linear phase + power-of-two-L DFT stage, L >= 8)",
+                    "plan": plan_signature(R.info)}
+        pm = passband_metrics(R)
+        sm = stopband_metrics(R)
+        return {"cfg": c, "label": cfg_label(c), "engine": R.info["engine"], "plan": plan_signature(R.info), "LP": R.LP, "MP": R.MP,
+                "L": R.L, "M": R.M, "bits": pm["bits"], "rolloff": rolloff_of(R.info), "class_db": gain_class_db(R.info),
+                "linear": pm["linear"], "pass": pm, "stop": sm, "W": R.W, "tail": R.tailmass, "extent": R.extent,
+                "stream": R.stream, "designed_ok": designed_ok(R.info), "phase": R.info["q"]["phase"],
+                "pb": R.info["q"]["pb"], "sb": R.info["q"]["sb"]}
+    except Exception as e:            # a crash of the measurement is reported by the caller, never swallowed
+        import traceback
+        return {"cfg": c, "label": cfg_label(c), "error": traceback.format_exc()[-1500:]}
+
+
+def job_tone(args):
+    c, kw = args
+    try:
+        info, _ = run(c)
+        if "error" in info:
+            return {"cfg": c, "label": cfg_label(c), "skipped": "create failed: " + info["error"]}
+        if not info.get("engine", "").startswith("cr") or bits_of(info) < 15:
+            return {"cfg": c, "label": cfg_label(c), "skipped": "property does not speak (precision < 15 bits)"}
+        if f1_signature(info):
+            return {"cfg": c, "label": cfg_label(c), "skipped": "known finding F1 signature"}
+        d = tone_job(c, **kw)
+        d.update(cfg=c, label=cfg_label(c), kw=kw, class_db=gain_class_db(info), pb=info["q"]["pb"], sb=info["q"]["sb"])
+        return d
+    except Exception as e:
+        import traceback
+        return {"cfg": c, "label": cfg_label(c), "kw": kw, "error": traceback.format_exc()[-1500:]}
+
+
+def pool_map(fn, jobs, workers=None):
+    from concurrent.futures import ProcessPoolExecutor
+    if not jobs:
+        return []
+    workers = workers or min(common.NCPU, 16)
+    harness()            # build once, in the parent
+    with ProcessPoolExecutor(workers) as ex:
+        return list(ex.map(fn, jobs, chunksize=1))
+
+
+def ratio_margin(x, lim):
+    return None if x is None else round(x / lim, 4)
